@@ -246,6 +246,8 @@ where
         2 => rect(0, 0, rng.u32r(1, 14), rng.u32r(1, 12)),
         // wide parents: row lengths beyond 255 (counters and skips in the cropping colour iterator)
         3 if rng.chance(1, 3) => rect(rng.i32r(-5, 5), rng.i32r(-5, 5), rng.u32r(250, 420), rng.u32r(2, 3)),
+        // tall parents: more than 255 rows
+        4 if rng.chance(1, 4) => rect(rng.i32r(-5, 5), rng.i32r(-5, 5), rng.u32r(2, 3), rng.u32r(250, 420)),
         _ => rect(rng.i32r(-12, 12), rng.i32r(-12, 12), rng.u32r(1, 16), rng.u32r(1, 12)),
     };
     // adapter stack: every level's area is chosen relative to the box of the level below
